@@ -76,6 +76,10 @@ fn main() {
         std::process::exit(2);
     }
     let prop = args[1].clone();
+    if prop == "c05-child" {
+        std::panic::set_hook(Box::new(|_| {}));
+        props::c05::child_drop_during_unwind(args[2].parse().unwrap());
+    }
     let mut seed = 1u64;
     let mut n = 1000usize;
     let mut out_dir = String::from("out");
